@@ -143,7 +143,9 @@ func (s *S) assemble() qp.Assemble {
 			}))
 			qp.MapEntry(ma, ":>", s.Subs[0].assemble())
 			if s.Stop {
-				qp.MapEntry(ma, "!", qp.Map(1, func(ma datamodel.MapAssembler) { qp.MapEntry(ma, string(selector.ConditionMode_Link), qp.Link(cidlink.Link{Cid: stopCid})) }))
+				qp.MapEntry(ma, "!", qp.Map(1, func(ma datamodel.MapAssembler) {
+					qp.MapEntry(ma, string(selector.ConditionMode_Link), qp.Link(cidlink.Link{Cid: stopCid}))
+				}))
 			}
 		}))
 	case "interp":
